@@ -19,6 +19,7 @@ import (
 	"verif/props/c14"
 	"verif/props/c15"
 	"verif/props/c16"
+	"verif/props/c17"
 	"verif/props/c18"
 	"verif/props/c19"
 )
@@ -42,6 +43,7 @@ func Registry() map[string]func() *mon.Spec {
 		"C14": c14.Spec,
 		"C15": c15.Spec,
 		"C16": c16.Spec,
+		"C17": c17.Spec,
 		"C18": c18.Spec,
 		"C19": c19.Spec,
 	}
